@@ -258,7 +258,7 @@ def gen(seed, tier):
 
 def nontrivial(case, model_obs):
     if case.engine == "sg_stress":
-        return any(o and o[0] == 40 and len(o) == 5 and o[1] >= 1000 and o[2] >= 2 for o in case.ops)
+        return any(o and ((o[0] == 40 and len(o) == 5 and o[1] >= 1000 and o[2] >= 2) or (o[0] == 42 and len(o) == 3 and o[1] >= 1000)) for o in case.ops)
     if case.engine == "sx_i":
         # at least 3 thread switches in the executed trace and somebody was taken by an exchange
         tids = [l.split()[0] for l in model_obs if len(l.split()) == 2]
@@ -344,7 +344,19 @@ def gen_x(seed, tier):
         for (subs, acts) in cfgs:
             for pre in itertools.product(range(3), repeat=7):
                 cases.append(xmk("y%d" % j, subs, acts, pre)); j += 1
-    # malformed: no collector / two collectors
+    # hook-up listener + a collector thread that emits as soon as the registration function has handed it the collector
+    hk = 0
+    for acts in ([1, 0], [1, 1, 0], [0], [1], [1, 1, 1, 0]):
+        for order in ((0, 1), (1, 0)):
+            for _ in range(3 if tier == "quick" else 12):
+                L = rng.choice([0, 4, 8, 12, 20])
+                sched = [rng.randint(0, 3) for _ in range(L)]
+                cases.append(xmk("k%d" % hk, [(4, 0)], acts, sched, list(order))); hk += 1
+    if tier != "quick":
+        for pre in itertools.product(range(2), repeat=9):
+            cases.append(xmk("k%d" % hk, [(4, 0)], [1, 1, 0], pre)); hk += 1
+    # malformed: no collector / two collectors / hook-up with a third thread
+    cases.append(Case("sx_i", "bad2", [[1, 4, 0], [1, 0, 0], [2, 1, 0], [9, 0, 1]]))
     cases.append(Case("sx_i", "bad0", [[1, 0, 0], [9, 0, 0]]))
     cases.append(Case("sx_i", "bad1", [[2, 1, 0], [2, 1], [1, 0, 0], [9, 1]]))
     return cases
@@ -362,7 +374,10 @@ def gen_stress(seed, tier):
     for k, (per, n, mask, j) in enumerate(cfgs):
         per = per * mul + rng.randint(0, 999)
         cases.append(Case("sg_stress", "s%d" % k, [[40, min(per, 1000000), n, mask, j]]))
-    cases.append(Case("sg_stress", "sbad", [[40, 0, 3, 0, 0], [41, 5], [40, 10, 9, 0, 0]]))
+    # hook-up: the emitter thread emits as soon as the registration function has published the collector
+    for k, (it, j) in enumerate([(30000, 0), (30000, 20), (20000, 200)]):
+        cases.append(Case("sg_stress", "sh%d" % k, [[42, min(it * mul + rng.randint(0, 99), 1000000), j]]))
+    cases.append(Case("sg_stress", "sbad", [[40, 0, 3, 0, 0], [41, 5], [40, 10, 9, 0, 0], [42, 0, 0]]))
     return cases
 
 
